@@ -1,8 +1,10 @@
 """C05 — quantise: grid, well-formed notes, survival.  Deciding oracle: the post-contract on the real
 AbsoluteSequence.quantise (monitors.py), evaluated on every call this workload and the in-situ run make."""
 from vmon import gen
-from vmon.checks.common import obs, fail, both_views, random_prefix, apply_prefix, same_then_edit
+from vmon.checks.common import wrapper_agrees, obs, fail, both_views, random_prefix, apply_prefix, same_then_edit
 
+EXTREMES = "seq"   # worker re-labels every sixth case to the ends of the legal ranges (gen.extremify)
+RESTATE = "seq"    # worker adds a signature restating the one in force to every fifth case (gen.restate_signatures)
 PROP = "C05"
 MONITORS = ["quantise"]
 INSITU = {"k": "quantise or composition or tokenisation or scale or example"}
@@ -50,12 +52,18 @@ def run(case, ctx):
     s = gen.build_seq(case["seq"])
     s = apply_prefix(s, case.get("prefix", []))
     before = obs(s)
+    twin = s.copy()
     if case["steps"] is None:
         s.quantise()
     else:
         s.quantise(list(case["steps"]))
     after = obs(s)
     fails = []
+
+    def inner(t):
+        t.abs.quantise(None if case["steps"] is None else list(case["steps"]))
+        t.invalidate_rel()
+    fails += wrapper_agrees(twin, inner, after, "quantise")
     ea, da, er, dr = both_views(s)
     if ea != er or da != dr:
         fails.append(fail("views_disagree_after_quantise", (da, dr)))
